@@ -373,6 +373,13 @@ static void c13_exec(Task &t, const Op &op, OpResult &r) {
             exec_api_op(t, op, r);
             InFlight f = f0;
             if (k >= 0) { f = M.fl[me].back(); M.fl[me].pop_back(); }
+            int pre = (k >= 0 && me < (int)g_pre_inv.size() && t.cur_op < (int)g_pre_inv[me].size()) ? g_pre_inv[me][t.cur_op] : -1;
+            if (f.invocations && pre >= 0 && f.invocations != pre && !(expected_handlers(me, k, f.gadm) & bit(V_IGN))) {
+                // how often a call reports does not depend on who is registered: alone, with nothing registered, this
+                // very call invokes the (default) handler `pre` times
+                violation(t, "wrong-count", std::string("a ") + (k ? "mem" : "str") + " report of " + g_fn[op.fn].name + " on task " + std::to_string(me) + ": " +
+                                                std::to_string(f.invocations) + " handler invocation(s) where the same call, run alone with nothing registered, makes " + std::to_string(pre));
+            }
             if (f.invocations) {
                 M.dispatches++;
                 M.api_dispatches++;
